@@ -403,6 +403,8 @@ class Interp:
             return VFunc('function', fi=self.prog.funcs[q])
         if q in ('io.BytesIO', 'io.StringIO'):
             return VClass(short)
+        if q in ('queue.Empty', 'Queue.Empty'):
+            return VClass('Empty')
         if q in self.prog.modules:
             return VModule(q)
         # re-exported names
